@@ -21,6 +21,16 @@ class TeeX:
         self.lock = threading.Lock()
 
 
+class _SourceError:
+    # Wraps an exception raised by the source stream. It travels through the
+    # linked list like a data element, so that every fork raises the source's
+    # exception after it has yielded all the elements before it.
+    __slots__ = ('exc',)
+
+    def __init__(self, exc: BaseException):
+        self.exc = exc
+
+
 class Fork:
     def __init__(
         self,
@@ -60,7 +70,12 @@ class Fork:
                             # is empty, the exception will be propagated, halting
                             # this fork. All the other forks will also get to this
                             # point and exit the same way.
-                            x = next(self.instream)
+                            try:
+                                x = next(self.instream)
+                            except StopIteration:
+                                raise
+                            except Exception as e:
+                                x = _SourceError(e)
                             box = TeeX(x)
                             self.buffer.put(box)
                             self.head.value = box
@@ -77,6 +92,10 @@ class Fork:
             else:
                 raise StopIteration
         else:
+            if isinstance(self.next.value, _SourceError):
+                # The source failed at this point; every fork ends with the same exception.
+                raise self.next.value.exc
+
             while self.next.next is None:
                 # During this loop while waiting on the `instream_lock`,
                 # `self.next.next` may become not None thanks to another Fork's
@@ -88,6 +107,7 @@ class Fork:
                 if locked:
                     try:
                         if self.next.next is None:
+                            exhausted = False
                             try:
                                 x = next(self.instream)
                             except StopIteration:
@@ -95,8 +115,10 @@ class Fork:
                                 # `self.next.next` remains `None`.
                                 # The next call to `__next__` will land
                                 # in the first branch and raise `StopIteration`.
-                                pass
-                            else:
+                                exhausted = True
+                            except Exception as e:
+                                x = _SourceError(e)
+                            if not exhausted:
                                 box = TeeX(x)
                                 self.next.next = box  # IMPORTANT: this line goes before the next to avoid race.
                                 self.buffer.put(box)
